@@ -205,11 +205,29 @@ macro_rules! check {
 
 pub struct Injected(pub &'static str);
 
+/// Message and source location of the most recent non-injected panic.
+pub static LAST_PANIC: Mutex<String> = Mutex::new(String::new());
+
+pub fn last_panic() -> String {
+    LAST_PANIC.lock().map(|s| s.clone()).unwrap_or_default()
+}
+
 pub fn install_quiet_panic_hook() {
     let default = std::panic::take_hook();
     std::panic::set_hook(Box::new(move |info| {
         if info.payload().downcast_ref::<Injected>().is_some() {
             return;
+        }
+        let msg = if let Some(s) = info.payload().downcast_ref::<&'static str>() {
+            s.to_string()
+        } else if let Some(s) = info.payload().downcast_ref::<String>() {
+            s.clone()
+        } else {
+            "<non-string payload>".to_string()
+        };
+        let loc = info.location().map(|l| format!("{}:{}", l.file(), l.line())).unwrap_or_default();
+        if let Ok(mut g) = LAST_PANIC.lock() {
+            *g = format!("{} at {}", msg, loc);
         }
         if EXPECT_PANIC.load(Ordering::SeqCst) > 0 {
             return;
